@@ -563,7 +563,15 @@ pub fn encode_json_value_to_metadatum(
                 for (raw_key, value) in json_obj {
                     let key = if schema == MetadataJsonSchema::BasicConversions {
                         match raw_key.parse::<i128>() {
-                            Ok(x) => TransactionMetadatum::new_int(&Int(x)),
+                            Ok(x) => {
+                                if x < -(1i128 << 64) || x >= (1i128 << 64) {
+                                    return Err(JsError::from_str(&format!(
+                                        "integer key {} is out of range for metadata",
+                                        raw_key
+                                    )));
+                                }
+                                TransactionMetadatum::new_int(&Int(x))
+                            }
                             Err(_) => encode_string(raw_key, schema)?,
                         }
                     } else {
